@@ -36,19 +36,51 @@ class _TimeShim:
 
     @staticmethod
     def time():
-        try:
-            loop = asyncio.get_running_loop()
-        except RuntimeError:
-            return float(EPOCH0)
-        if isinstance(loop, simnet.SimLoop):
-            return EPOCH0 + loop.time()
-        return _time.time()
+        return wall_now()
+
+
+WALL = {"epoch": EPOCH0}
+
+
+def set_wall_clock(epoch):
+    """Virtual wall clock origin used by the server (LIST), MemoryPathIO node times and the client's ls-date parser."""
+    WALL["epoch"] = epoch
+
+
+def wall_now():
+    try:
+        loop = asyncio.get_running_loop()
+    except RuntimeError:
+        return float(WALL["epoch"])
+    if isinstance(loop, simnet.SimLoop):
+        return WALL["epoch"] + loop.time()
+    return _time.time()
+
+
+class _DatetimeShim:
+    """Replaces the `datetime` module inside aioftp.client: datetime.datetime.now() follows the virtual clock."""
+
+    def __init__(self):
+        import datetime as _dt
+
+        class VDateTime(_dt.datetime):
+            @classmethod
+            def now(cls, tz=None):
+                return _dt.datetime.fromtimestamp(wall_now(), tz)
+
+        self._dt = _dt
+        self.datetime = VDateTime
+
+    def __getattr__(self, name):
+        return getattr(self._dt, name)
 
 
 def install_time_shim():
+    from aioftp import client as _client
     shim = _TimeShim()
     _pathio.time = shim
     _server.time = shim
+    _client.datetime = _DatetimeShim()
 
 
 install_time_shim()
